@@ -268,7 +268,13 @@ func FreePathNode(p *PathNode) {
 func guardPathNodeSlice(con *[]PathNode, l int) {
 	c := cap(*con) // Get the current capacity of the slice
 	if l >= c {
-		tmp := make([]PathNode, len(*con), l+DefaultNodeSliceCap) // Create a new slice 'tmp'
+		// grow geometrically: growing by a constant reallocates and copies the slice once for every
+		// DefaultNodeSliceCap children, which is quadratic in the number of children
+		n := l + DefaultNodeSliceCap
+		if n < c*2 {
+			n = c * 2
+		}
+		tmp := make([]PathNode, len(*con), n) // Create a new slice 'tmp'
 		copy(tmp, *con)                                           // Copy elements from the original slice to the new slice 'tmp'
 		*con = tmp                                                // Update the reference of the original slice to point to the new slice 'tmp'
 	}
